@@ -49,6 +49,11 @@ type room struct {
 	tsPool  []time.Time
 	forks   int
 	alt     gmsl.PDU // a second create event for the same room ID (C09 histories)
+	// fed mode (fed_test.go): this room is one server's replica of the DAG;
+	// lists are presented in arrival order and under the server's own
+	// map-iteration salt.
+	fed  bool
+	salt uint64
 }
 
 func uidFor(roomID spec.RoomID, sender spec.SenderID) (*spec.UserID, error) {
@@ -90,6 +95,9 @@ func (rm *room) pdus(st map[ref.Key]string) []gmsl.PDU {
 		ks = append(ks, k)
 	}
 	sort.Slice(ks, func(i, j int) bool {
+		if rm.fed {
+			return rm.nodes[st[ks[i]]].idx < rm.nodes[st[ks[j]]].idx
+		}
 		if ks[i].Type != ks[j].Type {
 			return ks[i].Type < ks[j].Type
 		}
